@@ -27,6 +27,8 @@ import torch
 from ..extract import c15_dispatch
 from ..extract import c15_rejections
 from ..extract import c15_sigs
+from ..extract import c15_bodies
+from . import c15_ext
 
 # --------------------------------------------------------------------------------------------------------------
 # instances
@@ -1175,7 +1177,7 @@ def fmt(M):
 # entry points
 # --------------------------------------------------------------------------------------------------------------
 
-LEAN_SOURCES = ["LinOp/C15", "LinOp/Generated/C15Tables.lean", "LinOp/Generated/C15Sigs.lean", "LinOp/Core/Parse.lean", "LinOp/Core/Basic.lean", "LinOp/Core/Bridge.lean"]
+LEAN_SOURCES = ["LinOp/C15", "LinOp/Generated/C15Tables.lean", "LinOp/Generated/C15Sigs.lean", "LinOp/Generated/C15Bodies.lean", "LinOp/Core/Parse.lean", "LinOp/Core/Basic.lean", "LinOp/Core/Bridge.lean"]
 
 
 def mro_lines(tab):
@@ -1302,6 +1304,10 @@ def enumerate_unregistered(chk, tab, lines):
     chk.count("overridable:unregistered-functions", nfn)
 
 
+# torch's published test lambda for permute names the parameter `dim`; the real parameter is `dims` (validated on dense tensors)
+TESTING_OVERRIDES_QUIRKS = {"torch.permute: torch publishes a required parameter `dim` that the table lacks"}
+
+
 def run(chk, only_group=None):
     torch.manual_seed(chk.rng.randrange(2 ** 31))
     tab = c15_dispatch.generate()
@@ -1321,6 +1327,14 @@ def run(chk, only_group=None):
         chk.proof_break("translator(C15Sigs)", msg)
     for msg in c15_sigs.validate_torch_sigs():
         chk.proof_break("translator(C15Sigs: torch signatures)", msg)
+    bd = c15_bodies.generate()
+    for msg in c15_bodies.dynamic_crosscheck(bd):
+        chk.proof_break("translator(C15Bodies)", msg)
+    msgs, ncmp = c15_bodies.crosscheck_testing_overrides()
+    chk.count("torch-signatures:compared-with-torch.overrides.get_testing_overrides", ncmp)
+    for msg in msgs:
+        if msg not in TESTING_OVERRIDES_QUIRKS:
+            chk.proof_break("translator(C15Sigs: torch signatures vs torch.overrides.get_testing_overrides)", msg)
     chk.prove("LinOp.Properties.C15", LEAN_SOURCES)
     # required registrations (the property statement lists them)
     first, second = dict(tab["first"]), dict(tab["second"])
@@ -1348,6 +1362,13 @@ def run(chk, only_group=None):
         except Exception as e:  # noqa: BLE001
             chk.proof_break("harness", f"enumeration of the overridable functions: {type(e).__name__}: {e}")
     check_lines(chk, lines)
+    if only_group is None:
+        # session 5: rectangular operands, div, isclose order semantics, sum(dim), renamed-parameter call forms
+        # (drawn from chk.rng after every other group, so the seeds of the existing catalogue are unchanged)
+        try:
+            c15_ext.extra(chk)
+        except Exception as e:  # noqa: BLE001
+            chk.proof_break("harness", f"extension cells: {type(e).__name__}: {e}")
 
 
 def replay(chk, payload):
@@ -1356,6 +1377,11 @@ def replay(chk, payload):
         lines = []
         enumerate_unregistered(chk, c15_dispatch.generate(), lines)
         return check_lines(chk, lines)
+    if p.get("ext"):
+        c15_dispatch.generate()
+        c15_sigs.generate(c15_dispatch.generate())
+        c15_bodies.generate()
+        return c15_ext.replay(chk, p)
     if "gseed" not in p:
         print("replay names broken obligations only:", json.dumps(p)[:2000])
         return run(chk)
